@@ -2,8 +2,8 @@
 from ..main import k_suite, Violation, parse_mismatch
 from .. import ksuites
 
-LEAN_MODULES = ["Shm.Props.C02"]
-GEN_TABLES = ["AttrUpdate.lean", "ClassTable.lean"]
+LEAN_MODULES = ["Shm.Props.C02", "Shm.Props.FactsC02"]
+GEN_TABLES = ["EntryFacts.lean", "AttrUpdate.lean", "ClassTable.lean"]
 LEVEL = "proof"
 RULE = ("T02: class tables (attribute type, footnote mask, size, default) dumped by executing every P11Object init chain, every updateAttr body and "
         "P11Attribute::update translated to the IR; theorems re-checked against them (ck7 on every secret attribute of every key class; abstract "
